@@ -9,6 +9,8 @@ CONSTANTS
   PriorTable = "persist_user_only"
   ViewSpace = "prior_mode"
   DerivedLookup = "derived"
+  ObsMerge = "always"
+  ObsParams <- MCObsParams
   Record = FALSE
   Export = "none"
   Params <- MCParams
@@ -26,6 +28,7 @@ CONSTANTS
 INVARIANT TypeOK
 INVARIANT OrderIsDeclarationOrder
 INVARIANT SpacesAgree
+INVARIANT ViewsReadable
 PROPERTY HistoryIndependent
 PROPERTY CompileTakesEnabled
 PROPERTY DefaultsFollowSettings
